@@ -64,6 +64,21 @@ Theorem C18_extent_by_new_name : forall w f g tc tb names m w' x,
 Proof. exact rename_extent. Qed.
 Print Assumptions C18_extent_by_new_name.
 
+(** a matrix query (stored pixels with both bins in the chromosome's extent) and a bins query addressed by the
+    NEW name on the renamed collection return what the query by the OLD name returned on the original *)
+Theorem C18_query_by_new_name : forall w f g tc tb names m w' x,
+  shape w f g tc tb names -> rename_chroms w f g m = Some w' ->
+  NoDup (map (subst m) names) -> In x names ->
+  (forall ti, child w f g "indexes"%string = Some ti -> ti <> tc /\ ti <> tb) ->
+  (forall ti, child w f g "indexes"%string = Some ti -> exists d, ds_at w f ti "chrom_offset"%string = Some d) ->
+  (forall tp, child w f g "pixels"%string = Some tp -> tp <> tc /\ tp <> tb) ->
+  (forall col, In col ["bin1_id"; "bin2_id"; "count"]%string -> exists d, column w f g "pixels"%string col = Some d) ->
+  (forall col, In col ["start"; "end"]%string -> exists d, column w f g "bins"%string col = Some d) ->
+  fetch_pixels w' f g (subst m x) = fetch_pixels w f g x /\
+  fetch_bin_coords w' f g (subst m x) = fetch_bin_coords w f g x.
+Proof. exact rename_fetch. Qed.
+Print Assumptions C18_query_by_new_name.
+
 (** histories: a chain of renamings substitutes map after map *)
 Theorem C18_chains_compose : forall ms w f g tc tb names w',
   shape w f g tc tb names -> rename_chain w f g ms = Some w' ->
@@ -100,3 +115,10 @@ Example ex_C18_swap :
   | None => False
   end.
 Proof. exact ex_swap18. Qed.
+Example ex_C18_fetch :
+  match rename_chroms w18 FA 0 swap12 with
+  | Some w' => fetch_pixels w' FA 0 "chr2"%string = Some [(1, 2, 5)] /\ fetch_pixels w18 FA 0 "chr1"%string = Some [(1, 2, 5)] /\
+               fetch_bin_coords w' FA 0 "chr2"%string = Some [(0, 10); (10, 20); (20, 25)]
+  | None => False
+  end.
+Proof. exact ex_fetch18. Qed.
